@@ -3,6 +3,7 @@ package checks
 import (
 	"bytes"
 	"context"
+	"encoding/json"
 	"errors"
 	"fmt"
 	"github.com/transparency-dev/witness/internal/persistence/inmemory"
@@ -13,6 +14,7 @@ import (
 	"net/http"
 	"net/url"
 	"os"
+	"os/exec"
 	"path/filepath"
 	"sort"
 	"strings"
@@ -229,6 +231,36 @@ func c17(tier string) int {
 // failure on the shipped configuration.
 func c17MainStarts(run *ev.Run) {
 	mainLogLists(run, "shipped-config", "the embedded logs.yaml", omniwitness.ConfigLogs)
+	// The same in a process of its own with the Prometheus metric factory - the
+	// default of cmd/omniwitness (metrics are registered once per process, so
+	// what is created per log or per start shows only there).
+	self, _ := os.Executable()
+	cmd := exec.Command(self, "worker", "c17main")
+	cmd.Env = append(os.Environ(), "VERIF_METRICS=prometheus")
+	out, err := cmd.Output()
+	var found []ev.Violation
+	if jerr := json.Unmarshal(lastLine(out), &found); err != nil || jerr != nil {
+		run.Report("main-crashes-on-shipped-config metrics=prometheus", fmt.Sprintf("omniwitness.Main over the embedded logs.yaml with the Prometheus metric factory installed (as cmd/omniwitness does by default) ended the process: %v: %s", err, tail(out)), map[string]any{"kind": "main-start"})
+		return
+	}
+	for _, v := range found {
+		run.Report(v.Signature+" metrics=prometheus", "with the Prometheus metric factory installed: "+v.What, map[string]any{"kind": "main-start"})
+	}
+	run.Add("main_started_with_prometheus_metrics", 1)
+}
+
+func init() { Workers["c17main"] = c17MainWorker }
+
+// c17MainWorker: verifmc worker c17main - mainLogLists on the shipped list in
+// this process (the parent chooses the metric factory through VERIF_METRICS);
+// prints the findings as one JSON line.
+func c17MainWorker(args []string) int {
+	run := ev.NewRun("C17", "quick", "exploration")
+	run.Scratch = true
+	mainLogLists(run, "shipped-config", "the embedded logs.yaml", omniwitness.ConfigLogs)
+	b, _ := json.Marshal(run.List())
+	fmt.Println(string(b))
+	return 0
 }
 
 // mainLogLists runs omniwitness.Main over the given log list (with a
